@@ -30,7 +30,7 @@ from lib import core, gen, oracle, graphcap
 
 EXTRACTORS = []
 # further property file of C08 (work package c08): Props/C08b.lean is built and audited with C08
-EXTRA_PROPS = ["C08b"]
+EXTRA_PROPS = ["C08b", "C08c"]
 BACKENDS = [None, "numpy", "numpy.numpylike", "numpy.einsum"]
 RELS = ["R1", "R2", "R3", "R4", "R5", "R6"]
 LEAN_EW = ("add", "subtract", "multiply", "maximum", "minimum")
